@@ -16,21 +16,14 @@ invariant `ClusterInv live` (C04: it holds in every reachable state).
 `fitsSomewhere V s` = some worker of some pool of `V` can accommodate `s`
 (`fitsSomewhere_false_iff` spells the negation out worker by worker).
 
-**LSF (finding D13).**  `LSFScheduler` calls `worker_pool.place_task(task)` without the strategy
-it has just tested.  All theorems about the policy's *own* virtual cluster hold for LSF too, but
-that virtual cluster is the cluster charged with the *reported* placements only under
-`LsfSafe` (every offered task has at most one strategy, or every pool has at most one worker);
-outside that class the reported answer can leave a task unplaced although it fits
-(`lsf_inversion_counterexample`).  When LSF is repaired in /repo, change
-`Model.Greedy.Policy.passesStrategy` to `true` for `.lsf`; `reported_accounting` then holds
-for LSF by its first disjunct and the counterexample no longer compiles (delete it).
+**LSF (finding D13, fixed in /repo 366b4de).**  `LSFScheduler` used to call
+`worker_pool.place_task(task)` without the strategy it had just tested, so its virtual cluster was
+not the cluster charged with the reported placements.  It now passes the strategy
+(`Policy.passesStrategy` is `true` for all three policies, `passes_all`), and every theorem below
+holds for EDF, FIFO and LSF alike; the former witness is kept as a positive example.
 -/
 namespace ErdosVerif.C13
 open ErdosVerif.Model ErdosVerif.Model.Greedy
-
-/-- The class of inputs on which LSF *as it is* charges what it reports. -/
-def LsfSafe (offer : List Offered) (live : List Pool) : Prop :=
-  (∀ o ∈ offer, o.task.strategies.length ≤ 1) ∨ (∀ p ∈ live, p.workers.length ≤ 1)
 
 /-! ### the processing order is the stable sort of the offer by the policy's key -/
 
@@ -114,43 +107,30 @@ theorem fit_antitone (cfg : Cfg) (V : List Pool) (os : List Offered) (ds : List 
 
 /-! ### the virtual cluster is the reported placements, charged in order -/
 
-theorem safe_of (cfg : Cfg) (offer : List Offered) (live : List Pool) (r : Result)
-    (h : schedule cfg offer live = .ok r)
-    (hs : cfg.policy.passesStrategy = true ∨ LsfSafe offer live) : Safe cfg r.virt0 r.order := by
-  obtain ⟨hc, _, ho, _⟩ := schedule_ok cfg offer live r h
-  rcases hs with h1 | h2 | h3
-  · exact .inl h1
-  · refine .inr (.inl ?_)
-    intro o hm
-    rw [ho] at hm
-    exact h2 o ((mem_sortBy o offer).mp hm)
-  · exact .inr (.inr (copyPools_workers live r.virt0 hc 1 h3))
+/-- Every policy hands the tested strategy to `WorkerPool.place_task`. -/
+theorem passes_all (p : Policy) : p.passesStrategy = true := by cases p <;> rfl
 
-/-- (Common form; see `reported_accounting` and `reported_accounting_lsf_partial` below.)
-For EDF and FIFO always, for LSF on `LsfSafe` inputs: the virtual cluster at return is
-exactly the copy of the live cluster charged, in order, with the reported placements (each
-through `WorkerPool.place_task(task, strategy)` on the pool it names). -/
-theorem reported_accounting_of_safe (cfg : Cfg) (offer : List Offered) (live : List Pool) (r : Result)
-    (h : schedule cfg offer live = .ok r) (hinv : ClusterInv live)
-    (hs : cfg.policy.passesStrategy = true ∨ LsfSafe offer live) :
+/-- **reported_accounting** — for EDF, FIFO and LSF: the virtual cluster at return is exactly the
+copy of the live cluster charged, in order, with the reported placements (each through
+`WorkerPool.place_task(task, strategy)` on the pool it names). -/
+theorem reported_accounting (cfg : Cfg) (offer : List Offered) (live : List Pool) (r : Result)
+    (h : schedule cfg offer live = .ok r) (hinv : ClusterInv live) :
     accountAll r.virt0 r.order r.placements = r.virt := by
   obtain ⟨hc, _, _, hr⟩ := schedule_ok cfg offer live r h
-  exact run_account cfg r.virt0 r.order r.placements r.virt (safe_of cfg offer live r h hs)
+  exact run_account cfg r.virt0 r.order r.placements r.virt (.inl (passes_all cfg.policy))
     (copyPools_inv live r.virt0 hinv hc) hr
 
 /-! ### no inversion -/
 
-/-- (Common form; see `no_inversion` and `no_inversion_lsf_partial` below.)
-Let `t` be answered "not placed". Then
+/-- **no_inversion** — EDF, FIFO and LSF. Let `t` be answered "not placed". Then
 * every task processed before `t` has priority higher than or equal to `t`'s and none
   processed after it has strictly higher priority;
-* `Vpre`, the copy of the live cluster charged with exactly the reported placements of the tasks
+* the copy of the live cluster charged with exactly the reported placements of the tasks
   processed before `t` (all of higher or equal priority) and nothing else — in particular with no
   lower-priority task — accommodates no strategy of `t` on any worker of any pool;
 * a fortiori neither does the final virtual cluster, where every placed task is accounted for. -/
-theorem no_inversion_of_safe (cfg : Cfg) (offer : List Offered) (live : List Pool) (r : Result)
+theorem no_inversion (cfg : Cfg) (offer : List Offered) (live : List Pool) (r : Result)
     (h : schedule cfg offer live = .ok r) (hinv : ClusterInv live)
-    (hs : cfg.policy.passesStrategy = true ∨ LsfSafe offer live)
     (pre post : List Offered) (t : Offered) (hsplit : r.order = pre ++ t :: post)
     (d : PlacementS) (hd : r.placements[pre.length]? = some d) (hk : d.kind = .place)
     (hun : d.pool = none) :
@@ -170,12 +150,7 @@ theorem no_inversion_of_safe (cfg : Cfg) (offer : List Offered) (live : List Poo
     simpa using hd
   subst hd'
   have htake : r.placements.take pre.length = dpre := by rw [hds, ← hl]; simp
-  have hsafe : Safe cfg r.virt0 pre := by
-    rcases safe_of cfg offer live r h hs with h1 | h2 | h3
-    · exact .inl h1
-    · exact .inr (.inl (fun o ho => h2 o (by rw [hsplit]; exact List.mem_append_left _ ho)))
-    · exact .inr (.inr h3)
-  have hacc := run_account cfg r.virt0 pre dpre Vpre hsafe hinv0 hrun
+  have hacc := run_account cfg r.virt0 pre dpre Vpre (.inl (passes_all cfg.policy)) hinv0 hrun
   intro s hsm
   have hfalse : fitsSomewhere Vpre s = false :=
     (fitsSomewhere_false_iff Vpre s).mpr (hno hk hun s hsm)
@@ -192,57 +167,6 @@ theorem no_inversion_of_safe (cfg : Cfg) (offer : List Offered) (live : List Poo
     have := fit_antitone cfg Vpre (t :: post) db r.virt hinvV h2 s hb hfin
     rw [hfalse] at this
     exact absurd this (by simp)
-
-/-- **reported_accounting**, full strength for every policy that hands the tested strategy to
-`WorkerPool.place_task` — EDF and FIFO (`passes_edf_fifo`), and LSF once repaired. -/
-theorem reported_accounting (cfg : Cfg) (offer : List Offered) (live : List Pool) (r : Result)
-    (h : schedule cfg offer live = .ok r) (hinv : ClusterInv live)
-    (hp : cfg.policy.passesStrategy = true) :
-    accountAll r.virt0 r.order r.placements = r.virt :=
-  reported_accounting_of_safe cfg offer live r h hinv (.inl hp)
-
-/-- PARTIAL (LSF as it is). Full statement: `reported_accounting` for `cfg.policy = .lsf` without
-`LsfSafe` — false for the current code, see `lsf_inversion_counterexample`. Proved: for any
-policy, on inputs where every offered task has at most one strategy or every pool at most one
-worker. -/
-theorem reported_accounting_lsf_partial (cfg : Cfg) (offer : List Offered) (live : List Pool) (r : Result)
-    (h : schedule cfg offer live = .ok r) (hinv : ClusterInv live) (hs : LsfSafe offer live) :
-    accountAll r.virt0 r.order r.placements = r.virt :=
-  reported_accounting_of_safe cfg offer live r h hinv (.inr hs)
-
-theorem passes_edf_fifo : Policy.edf.passesStrategy = true ∧ Policy.fifo.passesStrategy = true := ⟨rfl, rfl⟩
-
-/-- **no_inversion**, full strength for EDF and FIFO (and LSF once repaired): let `t` be answered
-"not placed"; then every task processed before `t` has priority higher than or equal to `t`'s and
-none processed after it has strictly higher priority; the copy of the live cluster charged with
-exactly the reported placements of the tasks processed before `t` — all of higher or equal
-priority, no lower-priority task — accommodates no strategy of `t` on any worker of any pool; and
-neither does the final virtual cluster, where every placed task is accounted for. -/
-theorem no_inversion (cfg : Cfg) (offer : List Offered) (live : List Pool) (r : Result)
-    (h : schedule cfg offer live = .ok r) (hinv : ClusterInv live)
-    (hp : cfg.policy.passesStrategy = true)
-    (pre post : List Offered) (t : Offered) (hsplit : r.order = pre ++ t :: post)
-    (d : PlacementS) (hd : r.placements[pre.length]? = some d) (hk : d.kind = .place)
-    (hun : d.pool = none) :
-    (∀ u ∈ pre, prioLt cfg t u = false) ∧ (∀ u ∈ post, prioLt cfg u t = false) ∧
-    ∀ s ∈ t.task.strategies,
-      fitsSomewhere (accountAll r.virt0 pre (r.placements.take pre.length)) s = false ∧
-      (s.isBatch = false → fitsSomewhere r.virt s = false) :=
-  no_inversion_of_safe cfg offer live r h hinv (.inl hp) pre post t hsplit d hd hk hun
-
-/-- PARTIAL (LSF as it is). Full statement: `no_inversion` for `cfg.policy = .lsf` without
-`LsfSafe` — false for the current code (`lsf_inversion_counterexample`). Proved: for any policy
-on `LsfSafe` inputs. -/
-theorem no_inversion_lsf_partial (cfg : Cfg) (offer : List Offered) (live : List Pool) (r : Result)
-    (h : schedule cfg offer live = .ok r) (hinv : ClusterInv live) (hs : LsfSafe offer live)
-    (pre post : List Offered) (t : Offered) (hsplit : r.order = pre ++ t :: post)
-    (d : PlacementS) (hd : r.placements[pre.length]? = some d) (hk : d.kind = .place)
-    (hun : d.pool = none) :
-    (∀ u ∈ pre, prioLt cfg t u = false) ∧ (∀ u ∈ post, prioLt cfg u t = false) ∧
-    ∀ s ∈ t.task.strategies,
-      fitsSomewhere (accountAll r.virt0 pre (r.placements.take pre.length)) s = false ∧
-      (s.isBatch = false → fitsSomewhere r.virt s = false) :=
-  no_inversion_of_safe cfg offer live r h hinv (.inr hs) pre post t hsplit d hd hk hun
 
 theorem take_succ_append {α} (pre : List α) (t : α) (x : List α) :
     (pre ++ t :: x).take (pre.length + 1) = pre ++ [t] := by
@@ -313,19 +237,19 @@ theorem lower_priority_irrelevant_total (cfg : Cfg) (offer : List Offered) (live
     (keyError_filter cfg offer _ hk) (fun o ho => hn o (List.mem_filter.mp ho).1)
   exact ⟨r', h', lower_priority_irrelevant cfg offer live r r' h pre post t hsplit h'⟩
 
-/-! ### LSF as it is: the reported answer can leave a task unplaced although it fits -/
+/-! ### the former D13 witness -/
 
 open Witness in
-/-- **Finding D13, machine checked.** One pool, worker 0 with one CPU, worker 1 with one GPU,
-nothing running; A (deadline 5, strategies [GPU, CPU]), B (deadline 6, [CPU]), C (deadline 7,
-[GPU]).  LSF reports A on the GPU strategy, B not placed, C on its GPU strategy — although
-B's CPU strategy fits the cluster charged with the reported placement of the only
-higher-priority task A, and the virtual cluster is not the reported accounting. -/
-theorem lsf_inversion_counterexample :
+/-- The input on which LSF used to report A on the GPU strategy, B not placed and C on the
+(already taken) GPU (finding D13, fixed in /repo 366b4de): one pool, worker 0 with one CPU,
+worker 1 with one GPU; A (deadline 5, [GPU, CPU]), B (deadline 6, [CPU]), C (deadline 7, [GPU]).
+LSF now places A on the GPU, B on the CPU and leaves C unplaced, and its virtual cluster is the
+reported accounting. -/
+example :
     ∃ r, schedule (cfg .lsf) offer live = .ok r ∧
-      (summary r == [(⟨0, 0⟩, some 0, some 0), (⟨1, 0⟩, none, none), (⟨2, 0⟩, some 0, some 3)]
-        && fitsSomewhere (accountAll r.virt0 (r.order.take 1) (r.placements.take 1)) sB
-        && !(r.virt == accountAll r.virt0 r.order r.placements)) = true :=
+      (summary r == [(⟨0, 0⟩, some 0, some 0), (⟨1, 0⟩, some 0, some 2), (⟨2, 0⟩, none, none)]
+        && !fitsSomewhere (accountAll r.virt0 (r.order.take 2) (r.placements.take 2)) sC
+        && (r.virt == accountAll r.virt0 r.order r.placements)) = true :=
   ok_of_match _ _ (by decide)
 
 open Witness in
@@ -363,9 +287,5 @@ example :
       [⟨⟨0, 0⟩, "G2", Witness.mkTask [Witness.sB] 9⟩, ⟨⟨1, 0⟩, "G10", Witness.mkTask [Witness.sB] 9⟩,
        ⟨⟨2, 0⟩, "G10", Witness.mkTask [Witness.sB] 9⟩]).map (·.id) = [⟨1, 0⟩, ⟨2, 0⟩, ⟨0, 0⟩] := by
   decide
-
-/-- `LsfSafe` is satisfiable with contention: single-strategy tasks on the witness cluster. -/
-example : LsfSafe [⟨⟨1, 0⟩, "G1", Witness.mkTask [Witness.sB] 6⟩, ⟨⟨2, 0⟩, "G2", Witness.mkTask [Witness.sB] 7⟩]
-    Witness.live := .inl (by simp [Witness.mkTask])
 
 end ErdosVerif.C13
